@@ -36,31 +36,42 @@ def run(chk, repo: Repo):
     bp = repo.cls(BP)
     mp = repo.method(bp, "MAP")[1]
     sc = repo.method(bp, "_sampleMapCholesky")[1]
-    # R1
+    # R1  (the covariance variables are found by their provenance, not by name)
+    from ..pattern import statements, unify
     for fn in (mp, sc):
         g = CFG(fn)
-        for var, dim in (("Ce", "self.model.range_dim"), ("Cx", "self.model.domain_dim")):
-            S = [(n, _norm(n.ast)) for n in g.nodes if isinstance(n.ast, ast.Assign) and n.kind == "stmt" and path_of(n.ast.targets[0]) == var]
-            scalar = [n for n, t in S if t == f"{var}={var}.ravel()[0]*np.eye({dim})"]
-            vector = [n for n, t in S if t in (f"{var}=np.diag({var})",)]
+        S = statements(fn, nested=True)
+        for role, src, dim in (("noise", "self.likelihood.distribution.cov", "self.model.range_dim"), ("prior", "self.prior.cov", "self.model.domain_dim")):
+            b0, _ = unify([f"$C={src}"], S)
+            if b0 is None:
+                raise AnchorError(f"{bp.qual}.{fn.name}: the {role} covariance is not read from {src}")
+            var = b0["C"]
+            SN = [(n, _norm(n.ast)) for n in g.nodes if isinstance(n.ast, ast.Assign) and n.kind == "stmt" and path_of(n.ast.targets[0]) == var]
+            scalar = [n for n, t in SN if t == f"{var}={var}.ravel()[0]*np.eye({dim})"]
+            vector = [n for n, t in SN if t in (f"{var}=np.diag({var})",)]
             problems = []
             if len(scalar) != 1 or (f"np.size({var})==1", "T") not in {(_norm(t.ast), lab) for t, lab in g.guards_of(scalar[0])}:
-                problems.append(f"a scalar {var} (stored as a (1,1) array) is not expanded to {var}*I of size {dim}")
+                problems.append(f"a scalar {role} covariance (stored as a (1,1) array) is not expanded to c*I of size {dim}")
             if len(vector) != 1 or not any(_norm(t.ast) in (f"np.ndim({var})==1", f"{var}.ndim==1", f"len({var}.shape)==1") and lab == "T" for t, lab in g.guards_of(vector[0])):
-                problems.append(f"a vector of variances {var} (stored 1-D) is not placed on a diagonal: it would be broadcast-added to every row / inverted element-wise")
-            chk.add("C15-R1", f"{bp.qual}.{fn.name}/{var}", not problems, site(repo, fn), f"{var}: scalar -> c*I, vector -> diag, matrix as stored", "; ".join(problems), fn)
+                problems.append(f"a vector of {role} variances (stored 1-D) is not placed on a diagonal: it would be broadcast-added to every row / inverted element-wise")
+            chk.add("C15-R1", f"{bp.qual}.{fn.name}/{role}-covariance", not problems, site(repo, fn), f"{role} covariance: scalar -> c*I, vector -> diag, matrix as stored", "; ".join(problems), fn)
     # R2
-    t = _norm(mp)
+    S = statements(mp, nested=True)
+    pats = ["$b=self.data", "$A=self.model.get_matrix()", "$Ce=self.likelihood.distribution.cov", "$m=self.prior.mean", "$Cx=self.prior.cov",
+            "$rhs=$b-$A@$m", "$sys=$A@$Cx@$A.T+$Ce", "$xm=$m+$Cx@($A.T@np.linalg.solve($sys,$rhs))"]
+    msgs = ["data", "matrix of the model", "noise covariance", "prior mean", "prior covariance", "residual of the prior mean b - A m",
+            "data-space system matrix A Cx A' + Ce", "x = m + Cx A' (A Cx A' + Ce)^-1 (b - A m)"]
     problems = []
+    b, fail = unify(pats, S)
+    if b is None:
+        problems.append(f"{msgs[fail]} (`{pats[fail]}` has no consistent match)")
+    t = _norm(mp)
     for pat, msg in (("ifself._check_posterior(self,Gaussian,Gaussian,LinearModel,max_dim=config.MAX_DIM_INV):", "route selected for Gaussian prior/likelihood, linear model, bounded size"),
-                     ("b=self.data", "data"), ("A=self.model.get_matrix()", "matrix of the model"), ("Ce=self.likelihood.distribution.cov", "noise covariance"),
-                     ("x0=self.prior.mean", "prior mean"), ("Cx=self.prior.cov", "prior covariance"),
-                     ("rhs=b-A@x0", "residual of the prior mean"), ("sysm=A@Cx@A.T+Ce", "data-space system matrix A Cx A' + Ce"),
-                     ("x_MAP=x0+Cx@(A.T@np.linalg.solve(sysm,rhs))", "x0 + Cx A' (A Cx A' + Ce)^-1 (b - A x0)"),
-                     ("else:x_MAP,solver_info=self._solve_max_point(self.posterior,disp=disp,x0=x0)", "otherwise numerical optimisation of the posterior"),
-                     ("x_MAP=cuqi.array.CUQIarray(x_MAP,geometry=self.posterior.geometry)", "wrapped with the posterior's geometry")):
+                     ("self._solve_max_point(self.posterior,disp=disp,x0=x0)", "otherwise numerical optimisation of the posterior")):
         if pat not in t:
             problems.append(f"{msg} (`{pat}` not found)")
+    if b is not None and f"{b['xm']}=cuqi.array.CUQIarray({b['xm']},geometry=self.posterior.geometry)" not in t:
+        problems.append("estimate is not wrapped with the posterior's geometry")
     chk.add("C15-R2", f"{bp.qual}.MAP", not problems, site(repo, mp), "closed form of the linear-Gaussian posterior mean", "; ".join(problems), mp)
     cp = repo.method(bp, "_check_posterior")[1]
     t = _norm(cp)
@@ -94,16 +105,16 @@ def run(chk, repo: Repo):
     ok = "x_MAP.info=solver_info" in t and "returnx_MAP" in t
     chk.add("C15-R3", f"{bp.qual}.MAP/return", ok, site(repo, mp), "returns the estimate with solver info", "MAP does not return the wrapped estimate", mp)
     # R4
-    t = _norm(sc)
+    S = statements(sc, nested=True)
+    pats = ["$A=self.model.get_matrix()", "$Ce=self.likelihood.distribution.cov", "$Cx=self.prior.cov", "$xmap=self.MAP(disp=False)",
+            "$C=np.linalg.inv($A.T@(np.linalg.inv($Ce)@$A)+np.linalg.inv($Cx))", "$L=np.linalg.cholesky($C)", "$n=self.prior.dim",
+            "$xs[:,$s]=$xmap.parameters+$L@np.random.randn($n)", "return cuqi.samples.Samples($xs,self.model.domain_geometry)"]
+    msgs = ["same matrix as MAP", "same noise covariance as MAP", "same prior covariance as MAP", "centre is the MAP",
+            "posterior covariance (A' Ce^-1 A + Cx^-1)^-1", "Cholesky factor of the covariance", "dimension", "draw = MAP parameters + L @ N(0, I)", "samples with the domain geometry"]
     problems = []
-    for pat, msg in (("b=self.data", "data"), ("A=self.model.get_matrix()", "same matrix as MAP"), ("Ce=self.likelihood.distribution.cov", "same noise covariance as MAP"),
-                     ("Cx=self.prior.cov", "same prior covariance as MAP"), ("x_map=self.MAP(disp=False)", "centre is the MAP"),
-                     ("C=np.linalg.inv(A.T@(np.linalg.inv(Ce)@A)+np.linalg.inv(Cx))", "posterior covariance (A' Ce^-1 A + Cx^-1)^-1"),
-                     ("L=np.linalg.cholesky(C)", "Cholesky factor of the covariance"),
-                     ("x_s[:,s]=x_map.parameters+L@np.random.randn(n)", "draw = MAP parameters + L @ N(0, I)"),
-                     ("n=self.prior.dim", "dimension"), ("returncuqi.samples.Samples(x_s,self.model.domain_geometry)", "samples with the domain geometry")):
-        if pat not in t:
-            problems.append(f"{msg} (`{pat}` not found)")
+    b, fail = unify(pats, S)
+    if b is None:
+        problems.append(f"{msgs[fail]} (`{pats[fail]}` has no consistent match)")
     chk.add("C15-R4", f"{bp.qual}._sampleMapCholesky", not problems, site(repo, sc), "exact Gaussian posterior draws", "; ".join(problems), sc)
     # R5
     for fn in (mp, sc):
